@@ -24,7 +24,7 @@ class C07Run(E2Run):
     default_monitors = ["c07"]
 
     def profile(self) -> Dict:
-        return {"topologies": ["routed", "routed2", "firewall", "wireless"], "max_hosts_per_subnet": 2, "tight_links": 0.0, "random_acl_rules": (0, 8), "permit_all_rule": 0.5, "avoid": ["listen_on_ports", "routing_loop"]}
+        return {"topologies": ["routed", "routed2", "firewall", "wireless"], "max_hosts_per_subnet": 2, "tight_links": 0.0, "random_acl_rules": (0, 8), "permit_all_rule": 0.5, "avoid": ["listen_on_ports"]}
 
     # -- model <-> built objects ----------------------------------------------------------------------------------------
     def lists_of(self, node) -> Dict[str, Any]:
